@@ -52,6 +52,8 @@ def safeBinop (op : Bitmap.BinOp) (form : Bitmap.Form) (l r : Bitmap) : String :
   | .and, .ar => safeMark "and_ar" (decide (Bitmap.Safe_andAR l r))
   | .and, .or_ => safeMark "and_ar" (decide (Bitmap.Safe_andAR l r))
   | .and, .ro => safeMark "and_ar" (decide (Bitmap.Safe_andAR r l))
+  | .and, .ao => safeMark "and_ao" (decide (Multi.Safe_andAO l r))   -- ops.rs:236 (the fold of `Multi.andAssignOwned`)
+  | .and, .oo => safeMark "and_ao" (decide (Multi.Safe_andAO l r))   -- ops.rs:187 `a & b` = `a &= b`
   | .sub, .ar => safeMark "sub_ar" (decide (Bitmap.Safe_subAR l r))
   | .sub, .ao => safeMark "sub_ar" (decide (Bitmap.Safe_subAR l r))
   | .sub, .oo => safeMark "sub_ar" (decide (Bitmap.Safe_subAR l r))
